@@ -90,4 +90,93 @@ theorem post_parseIterateNode (env : Env) (pe : P Node) (hpe : Post pe WfN)
   unfold parseIterateNode
   post_auto
 
+theorem post_parseJump (env : Env) (x : Nat) : Post (parseJump env x) WfN := by
+  unfold parseJump
+  post_auto
+
+theorem post_blockLoop (pStmt : P Node) (hst : Post pStmt WfN) (dc : Bool) :
+    ∀ fuel acc, (∀ n ∈ acc, WfN n) →
+      Post (blockLoop pStmt dc fuel acc) (fun l => ∀ n ∈ l, WfN n) := by
+  intro fuel
+  induction fuel with
+  | zero => intro acc _; unfold blockLoop; exact post_throw _
+  | succ fuel ih =>
+    intro acc hacc
+    unfold blockLoop
+    post_auto
+    all_goals grind
+
+theorem post_blockAll (pStmt : P Node) (hst : Post pStmt WfN) (dc : Bool) :
+    Post (blockAll pStmt dc) (fun l => ∀ n ∈ l, WfN n) := by
+  unfold blockAll
+  have := post_blockLoop pStmt hst dc
+  post_auto
+
+macro_rules | `(tactic| post_leaf) => `(tactic| (apply post_blockAll; post_leaf))
+macro_rules | `(tactic| post_leaf) => `(tactic| exact post_parseJump _ _)
+macro_rules | `(tactic| post_leaf) => `(tactic| (apply post_parseVarNode; post_leaf))
+macro_rules | `(tactic| post_leaf) => `(tactic| (apply post_parseAssignNode; post_leaf))
+macro_rules | `(tactic| post_leaf) => `(tactic| (apply post_parseRetNode; post_leaf))
+macro_rules | `(tactic| post_leaf) => `(tactic| exact post_parseChooseStmt _)
+macro_rules | `(tactic| post_leaf) => `(tactic| (apply post_parseIOManipNode <;> post_leaf))
+macro_rules | `(tactic| post_leaf) => `(tactic| (apply post_parseWhileNode <;> first | post_leaf | (intro _; post_leaf)))
+macro_rules | `(tactic| post_leaf) => `(tactic| (apply post_parseIterateNode <;> first | post_leaf | (intro _ _ _; post_leaf)))
+
+/-- The five functions of the statement cycle return present, well-formed nodes (an `iterate`
+block given well-formed `x = expr` assignments). -/
+structure StmtWf (env : Env) (e t b : Nat) : Prop where
+  block : ∀ dc, Post (pBlock env e t b dc) (fun l => ∀ n ∈ l, WfN n)
+  pif : Post (pIf env e t b) WfN
+  iterateBlock : ∀ label assigns, (∀ n ∈ assigns, WfN n ∧ iterAssignOK n = true) →
+    Post (pIterateBlock env e t b label assigns) WfN
+  statement1 : Post (pStatement1 env e t b) WfN
+  statement : Post (pStatement env e t b) WfN
+
+set_option maxRecDepth 16384 in
+theorem stmtwf_step (env : Env) (e t b : Nat)
+    (ih : ∀ b', b' < b → StmtWf env e t b') : StmtWf env e t b := by
+  have hc := core_wf env _ e t b rfl
+  have hE := hc.expr
+  have hT := hc.typeExpr
+  have hBlock : ∀ dc, Post (pBlock env e t b dc) (fun l => ∀ n ∈ l, WfN n) := by
+    intro dc
+    cases b with
+    | zero => unfold pBlock; exact post_failHere
+    | succ b' =>
+      have h1 := (ih b' (by omega)).statement
+      unfold pBlock
+      post_auto
+  have hIf : Post (pIf env e t b) WfN := by
+    cases b with
+    | zero => unfold pIf; post_auto
+    | succ b' =>
+      have h1 := (ih b' (by omega)).pif
+      unfold pIf
+      post_auto
+  have hIter : ∀ label assigns, (∀ n ∈ assigns, WfN n ∧ iterAssignOK n = true) →
+      Post (pIterateBlock env e t b label assigns) WfN := by
+    intro label assigns hassigns
+    cases b with
+    | zero => unfold pIterateBlock; post_auto
+    | succ b' =>
+      have h1 := (ih b' (by omega)).iterateBlock
+      unfold pIterateBlock
+      post_auto
+      all_goals (simp only [Node.setRhs]; wf_close)
+  have hS1 : Post (pStatement1 env e t b) WfN := by
+    unfold pStatement1
+    post_auto
+  have hS : Post (pStatement env e t b) WfN := by
+    unfold pStatement
+    post_auto
+    all_goals first
+      | exact wfN_setL0_map_setLine _ _ (wfN_setLine _ _ ‹_›)
+      | exact wfN_setLine _ _ ‹_›
+  exact ⟨hBlock, hIf, hIter, hS1, hS⟩
+
+theorem stmt_wf (env : Env) (e t : Nat) : ∀ b, StmtWf env e t b := by
+  intro b
+  induction b using Nat.strongRecOn with
+  | _ b ih => exact stmtwf_step env e t b ih
+
 end WuffsVerif.Parse
